@@ -352,6 +352,11 @@ func checkC04(c any) *ev.Verdict {
 		return v.Failf("shape-spurious", "send-all source rejected although every unbounded/allotment source is enclosed by a max: %s", b.real.Summary())
 	}
 	if !b.agree() {
+		// "a negative cap counts as zero": a script that only has such a cap against it must
+		// not be refused (a lack of funds is C03's business)
+		if b.m.Err == nil && b.failReal.ErrClass != model.EMissingFunds && hasNegativeSourceCap(ec, b.m.Env) {
+			return v.Failf("negative-cap-refused", "a source of the script has a negative cap, which counts as zero, and the greedy draw is well defined, but execution is refused: %s", b.failReal.Summary())
+		}
 		v.Skipped = "model and real disagree on success (C03 owns this)"
 		return v
 	}
@@ -435,6 +440,11 @@ func checkC05(c any) *ev.Verdict {
 		return v
 	}
 	if !b.agree() {
+		// "a negative cap counts as zero": a script that only has such a cap against it must
+		// not be refused (a lack of funds is C03's business)
+		if b.m.Err == nil && b.failReal.ErrClass != model.EMissingFunds && hasNegativeDestCap(ec, b.m.Env) {
+			return v.Failf("negative-cap-refused", "a destination of the script has a negative cap, which counts as zero, and the declared distribution is well defined, but execution is refused: %s", b.failReal.Summary())
+		}
 		v.Skipped = "model and real disagree on success (C03 owns this)"
 		return v
 	}
@@ -463,6 +473,67 @@ func checkC05(c any) *ev.Verdict {
 		}
 	}
 	return v
+}
+
+// hasNegativeSourceCap: does a `max` of some source evaluate to a negative amount?
+func hasNegativeSourceCap(ec *gen.ExecCase, env map[string]model.Val) bool {
+	found := false
+	var walk func(x *gen.Src)
+	walk = func(x *gen.Src) {
+		if x == nil {
+			return
+		}
+		if x.Kind == gen.SCapped {
+			if val, ok := model.EvalIn(env, x.Cap); ok && val.N != nil && val.N.Sign() < 0 {
+				found = true
+			}
+		}
+		for _, c := range x.Subs {
+			walk(c)
+		}
+		for i := range x.Items {
+			walk(x.Items[i].From)
+		}
+		walk(x.From)
+	}
+	for _, st := range ec.Script.Stmts {
+		if st.Kind == gen.StSend {
+			walk(st.Src)
+		}
+	}
+	return found
+}
+
+// hasNegativeDestCap: does a `max` clause of some ordered destination evaluate to a negative amount?
+func hasNegativeDestCap(ec *gen.ExecCase, env map[string]model.Val) bool {
+	found := false
+	var walk func(d *gen.Dst)
+	walkK := func(k *gen.KOD) {
+		if k != nil && !k.Kept {
+			walk(k.Dst)
+		}
+	}
+	walk = func(d *gen.Dst) {
+		if d == nil {
+			return
+		}
+		for i := range d.Clauses {
+			if val, ok := model.EvalIn(env, d.Clauses[i].Cap); ok && val.N != nil && val.N.Sign() < 0 {
+				found = true
+			}
+			walkK(&d.Clauses[i].To)
+		}
+		walkK(d.Remaining)
+		for i := range d.Items {
+			walkK(&d.Items[i].To)
+		}
+	}
+	for _, st := range ec.Script.Stmts {
+		if st.Kind == gen.StSend {
+			walk(st.Dst)
+		}
+	}
+	return found
 }
 
 // ---------------------------------------------------------------- C08
